@@ -62,6 +62,15 @@ class _Holder:
 holder = _Holder()
 
 
+def rebind(ident, generation):
+    """(re)bind the module attribute rebind_<ident> to a factory of the given generation:
+    the name must be resolved again by every translation"""
+    def make(*args, **kwargs):
+        LOG.append((ident, args, kwargs, generation))
+        return Made(ident, args, kwargs)
+    globals()["rebind_%d" % ident] = make
+
+
 def __getattr__(name):
     kind, _, ident = name.partition("_")
     if kind in ("okf", "okc", "raise", "cfgerr", "notcallable") and ident.isdigit():
